@@ -49,6 +49,7 @@ class Harness:
         self.args = meta.get("args", "").split()
         self.covers = meta.get("covers", "all")  # all | any | none
         # per-loop unwind bounds: "regex=N; regex=N" matched against CBMC's loop listing
+        self.cbmc = meta.get("cbmc", "").split()  # extra CBMC flags, e.g. --max-field-sensitivity-array-size 600
         self.unwindset = [(x.rsplit("=", 1)[0].strip(), int(x.rsplit("=", 1)[1])) for x in meta.get("unwindset", "").split(";") if "=" in x]
         # extra helper modules to mount: "file.rs@pocket-db/src/lmdb/mod.rs, ..."
         self.also = [x.strip().split("@") for x in fmeta.get("also", "").split(",") if x.strip()]
@@ -404,7 +405,9 @@ def run_harness(h, ws, tgt, logdir):
                     "stats": {}, "checks_total": 0, "checks_success": 0, "failed": [], "covers_sat": 0, "covers_total": 0,
                     "wall_s": 0, "log": logpath}
         if pairs:
-            extra = ["--cbmc-args", "--unwindset", ",".join(pairs)]
+            extra = ["--unwindset", ",".join(pairs)]
+    if h.cbmc or extra:
+        extra = ["--cbmc-args"] + h.cbmc + extra
     h.resolved_extra = extra  # also used when the harness is re-run for concrete playback
     rc, to, wall = run_cmd(kani_cmd(h, tgt), ws, h.timeout, h.mem, logpath)
     with open(logpath, errors="replace") as f:
@@ -715,6 +718,14 @@ def finish(prop, a, seed, hs, results, ws, tgt, logdir, t_start):
         h = by[r["harness"]]
         log("   replaying %s: %s" % (h.name, "; ".join("%s @ %s" % (c["desc"], c["loc"]) for c in r["unknown_failed"][:3])))
         what = "; ".join("%s @ %s" % (c["desc"], c["loc"]) for c in r["unknown_failed"][:5])
+        if h.crate == "db":
+            # harnesses over the environment model cannot be replayed with Kani's playback (natively the
+            # model crates run on real files and the std::fs stubs do not apply): the solver's verdict
+            # against the model is reported with its log; DESIGN.md 3.3 says how it is confirmed by hand
+            d = save_replay(prop, h, r, [], [], what + " [pocket-db harness over the environment model: not auto-replayed]")
+            vio_lines.append("VIOLATION property=%s replay=%s" % (prop, d))
+            r["replay_dir"] = d
+            continue
         tests, src = concrete_playback(h, ws, tgt, logdir, max(h.timeout * 2, 600))
         transcripts, tests_src = [], []
         if tests:
